@@ -10,9 +10,9 @@ import (
 
 	"verif/mc/dbx"
 	"verif/mc/ev"
-	"verif/mc/sys"
 	rm "verif/mc/refmodel"
 	"verif/mc/schemas"
+	"verif/mc/sys"
 )
 
 func srefSchemaJSON(allRoot bool) string {
@@ -26,6 +26,7 @@ func srefSchemaJSON(allRoot bool) string {
 	return `{"name":"REF","version":"1.0.0","tables":{
  "R":{"columns":{
    "name":{"type":"string"},
+   "imm":{"type":"string","mutable":false},
    "sset":{"type":{"key":` + ref("N1", "strong") + `,"min":0,"max":"unlimited"}},
    "sopt":{"type":{"key":` + ref("N1", "strong") + `,"min":0,"max":1}},
    "smap":{"type":{"key":{"type":"string"},"value":` + ref("N1", "strong") + `,"min":0,"max":"unlimited"}},
@@ -38,7 +39,7 @@ func srefSchemaJSON(allRoot bool) string {
  "R2":{"columns":{"one":{"type":{"key":` + ref("N1", "strong") + `}}}` + root + `},
  "RW":{"columns":{"w1":{"type":{"key":` + ref("N1", "weak") + `,"min":1,"max":"unlimited"}}}` + root + `},
  "N1":{"columns":{"name":{"type":"string"},"next":{"type":{"key":` + ref("N2", "strong") + `,"min":0,"max":1}}}},
- "N2":{"columns":{"name":{"type":"string"}}},
+ "N2":{"columns":{"name":{"type":"string"}},"indexes":[["name"]]},
  "N3":{"columns":{"name":{"type":"string"},"peer":{"type":{"key":` + ref("N3", "strong") + `,"min":0,"max":1}}}}
 }}`
 }
@@ -174,6 +175,10 @@ func srefAlphabet(level int) []dbx.Txn {
 		opInsert("N2", uN2[0], rm.Row{"name": str("b")}),
 		opInsert("N1", n1[0], rm.Row{"name": str("a"), "next": uset(uN2[0])}),
 		opInsert("R", uR[0], rm.Row{"name": str("chain"), "sset": uset(n1[0])}))
+	add("ins R r1,r2 sharing a1",
+		opInsert("N1", n1[0], rm.Row{"name": str("shared")}),
+		opInsert("R", uR[0], rm.Row{"name": str("one"), "sset": uset(n1[0]), "wset": uset(n1[0]), "smap": rm.MapOf(rm.S("k1"), rm.U(n1[0]))}),
+		opInsert("R", uR[1], rm.Row{"name": str("two"), "sset": uset(n1[0]), "wset": uset(n1[0]), "smap": rm.MapOf(rm.S("k1"), rm.U(n1[0]))}))
 	add("ins R r1 full",
 		opInsert("N1", n1[0], rm.Row{"name": str("a1")}),
 		opInsert("N1", n1[1], rm.Row{"name": str("a2")}),
